@@ -191,11 +191,18 @@ end Hash
 /-! ### deepcopy (plugin/deepcopy/deepcopy.go); `canCopy` is `canEqual` of `U/Ty` -/
 namespace DeepCopy
 
+def underIsStruct (env : Env) (T : Ty) : Bool :=
+  match env.under T with
+  | .struct _ => true
+  | _ => false
+
 /-- the `switch fieldType.Underlying()` of `genField` for a type that cannot be assigned; arrays are copied
 in place (`genStatement`), element by element: `hop` is `genField` of a NAMED element type -/
 def fieldShape (env : Env) (hop : Ty → List Key) (F : Ty) : Ty → List Key
   | .ptr R =>
-    if (copyM? env R).isSome then [] else if canEqual env R then [] else [(.deepcopy, F)]
+    -- the method of a struct takes the pointer; a named slice or map with a method takes the value, which the
+    -- function requested for the pointer type hands over
+    if (copyM? env R).isSome && underIsStruct env R then [] else if canEqual env R then [] else [(.deepcopy, F)]
   | .array _ E =>
     if canEqual env E then [] else if E.isNamed then hop E else fieldShape env hop E E
   | .slice E =>
